@@ -193,62 +193,67 @@ Definition make_extensions (c : config) (request : option mc_ext_in) (uv : bool)
       end
   end.
 
-(** [Authenticator::make_credential] *)
+(** [Authenticator::make_credential], in three pieces (source order): everything after the rk
+    check, everything after the exclude-list check, and the whole ceremony *)
+Definition mc_after_rk (c : config) (q : mc_request) (flags : N) (alg : Z) : prog (result mc_response N) :=
+  if mc_pin_auth q then Ret (Err CTAP2_UnsupportedOption) else
+  cred_id <- rand (c_id_len c) ;;
+  kp <- keygen ;;
+  let '(d, x, y) := kp in
+  ex <- make_extensions c (mc_ext q) (o_uv (mc_opts q)) ;;
+  match ex with
+  | Err e => Ret (Err e)
+  | Ok (cred_ext, unsigned) =>
+    disc <- store_info ;;
+    let is_rk := is_discoverable disc (o_rk (mc_opts q)) in
+    let pk := {| pk_key := {| k_es256 := Z.eqb alg ES256; k_ec2 := true; k_d := Some d; k_x := x; k_y := y |};
+                 pk_cred_id := cred_id;
+                 pk_rp_id := rp_id (mc_rp q);
+                 pk_user_handle := if is_rk then Some (u_id (mc_user q)) else None;
+                 pk_counter := if c_counter c then Some 0 else None;
+                 pk_hmac := cred_ext |} in
+    let ad := {| ad_rp_id := rp_id (mc_rp q);
+                 ad_flags := N.lor (N.lor F_DEFAULT flags) F_AT;
+                 ad_counter := pk_counter pk;
+                 ad_acd := Some {| acd_aaguid := c_aaguid c; acd_cred_id := cred_id;
+                                   acd_x := x; acd_y := y; acd_alg := alg |} |} in
+    s <- save pk (mc_user q) (mc_rp q) (mc_opts q) ;;
+    match s with
+    | Err e => Ret (Err e)
+    | Ok _ => Ret (Ok {| mr_auth_data := ad; mr_prf := unsigned |})
+    end
+  end.
+
+Definition mc_after_exclude (c : config) (q : mc_request) (flags : N) : prog (result mc_response N) :=
+  (* 2. algorithm *)
+  match choose_algorithm c (mc_params q) with
+  | None => Ret (Err CTAP2_UnsupportedAlgorithm)
+  | Some alg =>
+    (* 3.4 rk support *)
+    if o_rk (mc_opts q) then
+      info <- get_info c ;;
+      if negb (i_rk info) then Ret (Err CTAP2_UnsupportedOption) else mc_after_rk c q flags alg
+    else mc_after_rk c q flags alg
+  end.
+
+Definition mc_after_consent (c : config) (q : mc_request) (flags : N) : prog (result mc_response N) :=
+  (* 1. exclude list *)
+  match mc_exclude q with
+  | Some ((_ :: _) as l) =>
+      r <- find_creds (Some l) (rp_id (mc_rp q)) ;;
+      match r with
+      | Ok (_ :: _) => Ret (Err CTAP2_CredentialExcluded)
+      | _ => mc_after_exclude c q flags
+      end
+  | _ => mc_after_exclude c q flags
+  end.
+
 Definition make_credential (c : config) (q : mc_request) : prog (result mc_response N) :=
   if negb (o_up (mc_opts q)) then Ret (Err CTAP2_InvalidOption) else
   fl <- check_user (mc_opts q) None ;;
   match fl with
   | Err e => Ret (Err e)
-  | Ok flags =>
-    (* 1. exclude list *)
-    let after_exclude :=
-      (* 2. algorithm *)
-      match choose_algorithm c (mc_params q) with
-      | None => Ret (Err CTAP2_UnsupportedAlgorithm)
-      | Some alg =>
-        (* 3.4 rk support *)
-        let after_rk :=
-          if mc_pin_auth q then Ret (Err CTAP2_UnsupportedOption) else
-          cred_id <- rand (c_id_len c) ;;
-          kp <- keygen ;;
-          let '(d, x, y) := kp in
-          ex <- make_extensions c (mc_ext q) (o_uv (mc_opts q)) ;;
-          match ex with
-          | Err e => Ret (Err e)
-          | Ok (cred_ext, unsigned) =>
-            disc <- store_info ;;
-            let is_rk := is_discoverable disc (o_rk (mc_opts q)) in
-            let pk := {| pk_key := {| k_es256 := Z.eqb alg ES256; k_ec2 := true; k_d := Some d; k_x := x; k_y := y |};
-                         pk_cred_id := cred_id;
-                         pk_rp_id := rp_id (mc_rp q);
-                         pk_user_handle := if is_rk then Some (u_id (mc_user q)) else None;
-                         pk_counter := if c_counter c then Some 0 else None;
-                         pk_hmac := cred_ext |} in
-            let ad := {| ad_rp_id := rp_id (mc_rp q);
-                         ad_flags := N.lor (N.lor F_DEFAULT flags) F_AT;
-                         ad_counter := pk_counter pk;
-                         ad_acd := Some {| acd_aaguid := c_aaguid c; acd_cred_id := cred_id;
-                                           acd_x := x; acd_y := y; acd_alg := alg |} |} in
-            s <- save pk (mc_user q) (mc_rp q) (mc_opts q) ;;
-            match s with
-            | Err e => Ret (Err e)
-            | Ok _ => Ret (Ok {| mr_auth_data := ad; mr_prf := unsigned |})
-            end
-          end in
-        if o_rk (mc_opts q) then
-          info <- get_info c ;;
-          if negb (i_rk info) then Ret (Err CTAP2_UnsupportedOption) else after_rk
-        else after_rk
-      end in
-    match mc_exclude q with
-    | Some ((_ :: _) as l) =>
-        r <- find_creds (Some l) (rp_id (mc_rp q)) ;;
-        match r with
-        | Ok (_ :: _) => Ret (Err CTAP2_CredentialExcluded)
-        | _ => after_exclude
-        end
-    | _ => after_exclude
-    end
+  | Ok flags => mc_after_consent c q flags
   end.
 
 (** [select_salts] *)
@@ -304,52 +309,61 @@ Section Encoders.
 (** the byte encoding of authenticator data (Wire/AuthData.v), needed for the signed message *)
 Variable ad_bytes : auth_data -> bytes.
 
-(** [Authenticator::get_assertion] *)
+(** [Authenticator::get_assertion], in pieces: signing with the (possibly updated) credential,
+    everything after consent, the whole ceremony *)
+Definition ga_finish (c : config) (q : ga_request) (flags : N) (cred : passkey) : prog (result ga_response N) :=
+  ex <- get_extensions c cred (ga_ext q) (negb (N.land flags F_UV =? 0)) ;;
+  match ex with
+  | Err e => Ret (Err e)
+  | Ok prf =>
+    let ad := {| ad_rp_id := ga_rp_id q; ad_flags := N.lor F_DEFAULT flags;
+                 ad_counter := pk_counter cred; ad_acd := None |} in
+    match private_key (pk_key cred) with
+    | Err e => Ret (Err e)
+    | Ok d =>
+        sg <- sign d (ad_bytes ad ++ ga_cdh q) ;;
+        Ret (Ok {| gr_cred_id := pk_cred_id cred; gr_auth_data := ad; gr_signature := sg;
+                   gr_user_handle := pk_user_handle cred; gr_prf := prf |})
+    end
+  end.
+
+Definition bump_counter (cred0 : passkey) (n : N) : passkey :=
+  {| pk_key := pk_key cred0; pk_cred_id := pk_cred_id cred0; pk_rp_id := pk_rp_id cred0;
+     pk_user_handle := pk_user_handle cred0; pk_counter := Some (counter_next n);
+     pk_hmac := pk_hmac cred0 |}.
+
+Definition ga_after_consent (c : config) (q : ga_request) (flags : N) (maybe : result passkey N)
+  : prog (result ga_response N) :=
+  match maybe with
+  | Err e => Ret (Err e)
+  | Ok cred0 =>
+    match pk_counter cred0 with
+    | Some n =>
+        u <- update (bump_counter cred0 n) ;;
+        match u with
+        | Err e => Ret (Err e)
+        | Ok _ => ga_finish c q flags (bump_counter cred0 n)
+        end
+    | None => ga_finish c q flags cred0
+    end
+  end.
+
+Definition first_credential (r : result (list passkey) N) : result passkey N :=
+  match r with
+  | Err e => Err e
+  | Ok [] => Err CTAP2_NoCredentials
+  | Ok (p :: _) => Ok p
+  end.
+
 Definition get_assertion (c : config) (q : ga_request) : prog (result ga_response N) :=
   let ids := match ga_allow q with Some ((_ :: _) as l) => Some l | _ => None end in
   r <- find_creds ids (ga_rp_id q) ;;
-  let maybe : result passkey N :=
-    match r with
-    | Err e => Err e
-    | Ok [] => Err CTAP2_NoCredentials
-    | Ok (p :: _) => Ok p
-    end in
+  let maybe := first_credential r in
   if ga_pin_auth q then Ret (Err CTAP2_PinAuthInvalid) else
   if o_rk (ga_opts q) then Ret (Err CTAP2_UnsupportedOption) else
   fl <- check_user (ga_opts q) (match maybe with Ok p => Some p | Err _ => None end) ;;
   match fl with
   | Err e => Ret (Err e)
-  | Ok flags =>
-    match maybe with
-    | Err e => Ret (Err e)
-    | Ok cred0 =>
-      let continue (cred : passkey) :=
-        ex <- get_extensions c cred (ga_ext q) (negb (N.land flags F_UV =? 0)) ;;
-        match ex with
-        | Err e => Ret (Err e)
-        | Ok prf =>
-          let ad := {| ad_rp_id := ga_rp_id q; ad_flags := N.lor F_DEFAULT flags;
-                       ad_counter := pk_counter cred; ad_acd := None |} in
-          match private_key (pk_key cred) with
-          | Err e => Ret (Err e)
-          | Ok d =>
-              sg <- sign d (ad_bytes ad ++ ga_cdh q) ;;
-              Ret (Ok {| gr_cred_id := pk_cred_id cred; gr_auth_data := ad; gr_signature := sg;
-                         gr_user_handle := pk_user_handle cred; gr_prf := prf |})
-          end
-        end in
-      match pk_counter cred0 with
-      | Some n =>
-          let cred := {| pk_key := pk_key cred0; pk_cred_id := pk_cred_id cred0; pk_rp_id := pk_rp_id cred0;
-                         pk_user_handle := pk_user_handle cred0; pk_counter := Some (counter_next n);
-                         pk_hmac := pk_hmac cred0 |} in
-          u <- update cred ;;
-          match u with
-          | Err e => Ret (Err e)
-          | Ok _ => continue cred
-          end
-      | None => continue cred0
-      end
-    end
+  | Ok flags => ga_after_consent c q flags maybe
   end.
 End Encoders.
